@@ -409,7 +409,7 @@ func (e *Engine) applyContract(s *State, ct *Contract, fn *ssa.Function, sig *ty
 	ctx.OldHeap = old
 	ctx.SnapEpoch = s.Epoch
 	ctx.SnapPending = s.pendingHavoc[:len(s.pendingHavoc):len(s.pendingHavoc)]
-	e.event(s, Event{Kind: "call", What: key, Args: args, ArgTypes: e.argTypesFor(args), Pos: e.P.Pos(in.Pos()), Instr: in, Extra: map[string]string{"contract": "1", "blocking": ct.Flags["blocking"]}})
+	e.event(s, Event{Kind: "call", What: key, Args: args, ArgTypes: e.argTypesFor(args), Pos: e.P.Pos(in.Pos()), Instr: in, Extra: map[string]string{"contract": "1", "blocking": ct.Flags["blocking"], "trusted": map[bool]string{true: "1", false: ""}[ct.Flag("trusted") || fn == nil || fn.Pkg == nil || !strings.HasPrefix(fn.Pkg.Pkg.Path(), e.P.ModPrefix)]}})
 	recvFreshAtCall := len(args) > 0 && len(args[0].L) == 1 && (s.FreshRefs[args[0].L[0]] || s.Private[args[0].L[0]])
 	freshBefore := make(map[string]bool, len(s.FreshRefs))
 	for k := range s.FreshRefs {
